@@ -58,6 +58,9 @@ type sim struct {
 	focus  string          // key of the cursor the loop iterates
 	events map[string]bool // life-cycle statements on that key executed by the body since the last header fetch
 	bad    bool // a statement resolved to cursors of different shape at different times: cannot be rendered
+	// the cursor whose OPEN is evaluating its query right now (reentrant.go): the statements being simulated are
+	// the body of the function that query calls
+	opening *cursor
 }
 
 func (s *sim) resolve(k string) *cursor {
@@ -128,6 +131,12 @@ func (s *sim) stmt(st *lstmt) string {
 	}
 	if c.pseudo && (st.kind == "open" || st.kind == "close") {
 		return "E11006"
+	}
+	if s.opening != nil && (st.kind == "open" || st.kind == "close") && (c == s.opening || (st.kind == "open" && c.qkind == qRe)) {
+		// OPEN / CLOSE of the cursor that is being opened wait for the mutex its OPEN holds (known finding F100: the
+		// dedicated scenarios of reentrant.go watch it); OPEN of another cursor over rf() would call rf recursively
+		s.bad = true
+		return "E?"
 	}
 	switch st.kind {
 	case "open":
@@ -683,6 +692,9 @@ func (h *hist) finishProgram(kind string, s *sim, got []string, name string, bod
 		ln := "block_scoping"
 		if kind == "agg" {
 			ln = "pseudo_cursor"
+		}
+		if kind == "openre" {
+			ln = "cursor_is_closed_while_its_open_runs"
 		}
 		if kind == "loop" {
 			switch {
